@@ -80,6 +80,10 @@ func (recoveryComp) Corpus() [][]string {
 			"file a.f1 10 -2 v", "file a.f2 8 -2 w", "file a.f3 4 -2 x", "file a.f4 6 -2 y",
 			"partial a.f1 10 m-v-10 a.f0 6:8,0:3", "partial a.f2 8 m-w-8 a.f1 0:8", "partial a.f3 4 m-x-4 a.f2 0:1", "partial a.f9 3 hz a.f8 0:1",
 			"answer a.f2 waiting", "answer a.f4 none", "recover"},
+		// a file the receiver holds completely (companion still on the stage: validating or held) is POLLED after a
+		// restart, not queued as already delivered: with answers none / waiting / no answer at all
+		{"cache a.f2 8 -2 m-w-8 0", "file a.f2 8 -2 w", "partial a.f2 8 m-w-8 a.f1 0:8", "recover"},
+		{"tag a 1 0", "cache a.f2 8 -2 m-w-8 0", "file a.f2 8 -2 w", "partial a.f2 8 m-w-8 a.f1 0:3,3:8", "answer a.f2 none,none,waiting", "recover", "recover"},
 		// S5: overlapping receiver record: no negative range, nothing listed is sent again
 		{"cache a.f1 10 -2 m-v-10 0", "file a.f1 10 -2 v", "partial a.f1 10 m-v-10 a.f0 2:8,6:10", "recover"},
 		{"cache a.f1 12 -2 m-v-12 0", "file a.f1 12 -2 v", "partial a.f1 12 m-v-12 - 0:6,2:4,5:9", "recover"},
